@@ -2,6 +2,8 @@
 // an in-memory duplex transport whose reads are cut by a segmentation script.  Every case is
 // (hs scriptA scriptB ((side cid ts type sid payload) ...)); payload is x<hex> or (len a)
 // = the first len bytes of the 251-byte block a, a+1, ... (mod 251) repeated.
+// hs = 1: a full session (simple handshake through the Handshake API on the connection, then at
+// once NewProtocol on the same connection); the scripts cut the whole byte stream of a direction.
 // Observation per direction: handshake reads, writer wire (length, hash), per-write result,
 // messages read by the peer (cid ts type sid length hash), final error class.
 // Direct oracle (independent of the model): read sequence == written sequence.
@@ -18,12 +20,17 @@ import (
 	oe "github.com/ossrs/go-oryx-lib/errors"
 )
 
-// one direction of the transport; reads are cut by the script
+// one direction of the transport.  The script cuts the BYTE STREAM (not the sequence of Read
+// calls) into transport segments of the given sizes, cyclically, exactly like `cut` in the model:
+// a Read never returns bytes of two segments, so a segment that holds the tail of the handshake
+// and the first chunk bytes is delivered as one read to whoever asks for enough bytes.  An empty
+// script = everything that is available in one read.
 type vC01Buf struct {
 	data   []byte
 	pos    int
 	script []int
 	k      int
+	segEnd int // absolute end of the segment that contains pos
 }
 
 func (b *vC01Buf) Write(p []byte) (int, error) {
@@ -44,13 +51,16 @@ func (b *vC01Buf) Read(p []byte) (int, error) {
 		n = avail
 	}
 	if len(b.script) > 0 {
-		s := b.script[b.k%len(b.script)]
-		b.k++
-		if s < 1 {
-			s = 1
+		for b.segEnd <= b.pos {
+			sz := b.script[b.k%len(b.script)]
+			b.k++
+			if sz < 1 {
+				sz = 1
+			}
+			b.segEnd += sz
 		}
-		if n > s {
-			n = s
+		if n > b.segEnd-b.pos {
+			n = b.segEnd - b.pos
 		}
 	}
 	copy(p, b.data[b.pos:b.pos+n])
@@ -234,10 +244,72 @@ func vC01Run(k *vKit, c vSx) (obs vSx, failOracle, failDetail string, nontrivial
 		msgs = append(msgs, m)
 	}
 
-	// buf[d] carries direction d: written by endpoint d, read by endpoint 1-d
+	// buf[d] carries direction d: written by endpoint d, read by endpoint 1-d.  Endpoint 0 is the
+	// client, endpoint 1 the server.  A full session (hs) is what a user of the package does on one
+	// connection: the simple handshake through the Handshake API directly on the connection, then
+	// IMMEDIATELY NewProtocol on the same connection and the messages.  The client sends its messages
+	// right after C2, the server (pipelining) right after S2, so that the tail of the handshake and the
+	// first chunk bytes sit in the transport together when the peer reads the handshake: whether they
+	// arrive in one read or not is decided by the script alone.
 	buf := [2]*vC01Buf{{script: scripts[0]}, {script: scripts[1]}}
 	conn := [2]*vC01Conn{{in: buf[1], out: buf[0]}, {in: buf[0], out: buf[1]}}
 	hsObs := [2]vSx{vL(), vL()}
+	var prot [2]*Protocol
+	var wcodes [2][]vSx
+	var written [2][]vC01Msg
+	dirDomain := [2]bool{true, true}
+	chunk := [2]int{128, 128}
+	changed := [2]bool{}
+	writeSide := func(d int) {
+		for _, m := range msgs {
+			if m.side != d {
+				continue
+			}
+			if !vC01InDomain(m) {
+				dirDomain[d] = false
+			}
+			if len(m.payload) > chunk[d] || m.ts >= 0xffffff || changed[d] {
+				nontrivial = true
+			}
+			var err error
+			msg := vPanicText(func() {
+				if m.typ == 1 && m.cid == 2 && m.ts == 0 && len(m.payload) == 4 {
+					pkt := NewSetChunkSize()
+					pkt.ChunkSize = binary.BigEndian.Uint32(m.payload)
+					err = prot[d].WritePacket(pkt, int(m.sid))
+				} else {
+					mm := NewStreamMessage(int(m.sid))
+					mm.betterCid = chunkID(m.cid)
+					mm.MessageType = MessageType(m.typ)
+					mm.Timestamp = m.ts
+					mm.Payload = append([]byte{}, m.payload...)
+					err = prot[d].WriteMessage(mm)
+				}
+			})
+			switch {
+			case msg != "":
+				wcodes[d] = append(wcodes[d], vI(1000))
+				bad("no-panic", "writer panicked: "+msg)
+			case err != nil:
+				wcodes[d] = append(wcodes[d], vI(vC01ErrClass(err)))
+			default:
+				wcodes[d] = append(wcodes[d], vI(0))
+				written[d] = append(written[d], m)
+				if m.typ == 1 && len(m.payload) >= 4 {
+					if n := binary.BigEndian.Uint32(m.payload); n > 0 {
+						if int(n) != chunk[d] {
+							changed[d] = true
+						}
+						chunk[d] = int(n)
+					}
+				}
+			}
+			if err != nil && vC01InDomain(m) {
+				bad("write-ok", fmt.Sprintf("in-domain message (cid %d type %d len %d) refused by the writer: %v", m.cid, m.typ, len(m.payload), err))
+			}
+		}
+	}
+	start := [2]int{0, 0}
 	if hs {
 		h := [2]*Handshake{NewHandshake(rand.New(rand.NewSource(int64(len(msgs)) + 7))), NewHandshake(rand.New(rand.NewSource(11)))}
 		var rd [2][3][]byte // what endpoint e read: c0/s0, c1/s1, c2/s2
@@ -246,9 +318,11 @@ func vC01Run(k *vKit, c vSx) (obs vSx, failOracle, failDetail string, nontrivial
 				bad("handshake", "handshake step failed: "+err.Error())
 			}
 		}
+		var err error
+		// client: C0 C1
 		must(h[0].WriteC0S0(conn[0]))
 		must(h[0].WriteC1S1(conn[0]))
-		var err error
+		// server: reads C0 C1, sends S0 S1 S2 and at once its messages
 		rd[1][0], err = h[1].ReadC0S0(conn[1])
 		must(err)
 		rd[1][1], err = h[1].ReadC1S1(conn[1])
@@ -256,84 +330,46 @@ func vC01Run(k *vKit, c vSx) (obs vSx, failOracle, failDetail string, nontrivial
 		must(h[1].WriteC0S0(conn[1]))
 		must(h[1].WriteC1S1(conn[1]))
 		must(h[1].WriteC2S2(conn[1], rd[1][1]))
+		prot[1] = NewProtocol(conn[1])
+		writeSide(1)
+		// client: reads S0 S1 S2 (the server's messages are already behind them), sends C2 and at
+		// once its messages
 		rd[0][0], err = h[0].ReadC0S0(conn[0])
 		must(err)
 		rd[0][1], err = h[0].ReadC1S1(conn[0])
 		must(err)
 		rd[0][2], err = h[0].ReadC2S2(conn[0])
 		must(err)
+		consumed1 := buf[1].pos
 		must(h[0].WriteC2S2(conn[0], rd[0][1]))
+		prot[0] = NewProtocol(conn[0])
+		writeSide(0)
+		// server: reads C2 (the client's messages are already behind it)
 		rd[1][2], err = h[1].ReadC2S2(conn[1])
 		must(err)
+		consumed := [2]int{buf[0].pos, consumed1}
 		for d := 0; d < 2; d++ {
 			// direction d is read by endpoint 1-d; its C2/S2 must echo what 1-d sent as C1/S1
 			e := 1 - d
 			echo := len(buf[e].data) >= 1537 && string(rd[e][2]) == string(buf[e].data[1:1537])
 			hsObs[d] = vL(vB(rd[e][0]), vI(len(rd[e][1])), vI(len(rd[e][2])), vBool(echo))
-			// direct oracle: each side has written and consumed exactly 1+1536+1536 bytes
-			if len(buf[d].data) != 3073 || buf[d].pos != 3073 {
-				bad("handshake", fmt.Sprintf("direction %d: %d bytes written, %d consumed, want 3073/3073", d, len(buf[d].data), buf[d].pos))
+			// direct oracle: the handshake reads took exactly 1+1536+1536 bytes off the connection,
+			// whatever else was already waiting there
+			if len(buf[d].data) < 3073 || consumed[d] != 3073 {
+				bad("handshake", fmt.Sprintf("direction %d: handshake reads consumed %d bytes of the connection, want 3073", d, consumed[d]))
 			}
-			if !echo || len(rd[e][0]) != 1 || rd[e][0][0] != 3 || string(rd[e][1]) != string(buf[d].data[1:1537]) {
+			if !echo || len(rd[e][0]) != 1 || rd[e][0][0] != 3 || len(buf[d].data) < 1537 || string(rd[e][1]) != string(buf[d].data[1:1537]) {
 				bad("handshake", fmt.Sprintf("direction %d: handshake content not delivered intact", d))
 			}
-		}
-	}
-	start := [2]int{len(buf[0].data), len(buf[1].data)}
-	prot := [2]*Protocol{NewProtocol(conn[0]), NewProtocol(conn[1])}
-
-	var wcodes [2][]vSx
-	var written [2][]vC01Msg
-	dirDomain := [2]bool{true, true}
-	chunk := [2]int{128, 128}
-	changed := [2]bool{}
-	for _, m := range msgs {
-		d := m.side
-		if d > 1 {
-			continue // the model keeps only sides 0 and 1
-		}
-		if !vC01InDomain(m) {
-			dirDomain[d] = false
-		}
-		if len(m.payload) > chunk[d] || m.ts >= 0xffffff || changed[d] {
-			nontrivial = true
-		}
-		var err error
-		msg := vPanicText(func() {
-			if m.typ == 1 && m.cid == 2 && m.ts == 0 && len(m.payload) == 4 {
-				pkt := NewSetChunkSize()
-				pkt.ChunkSize = binary.BigEndian.Uint32(m.payload)
-				err = prot[d].WritePacket(pkt, int(m.sid))
-			} else {
-				mm := NewStreamMessage(int(m.sid))
-				mm.betterCid = chunkID(m.cid)
-				mm.MessageType = MessageType(m.typ)
-				mm.Timestamp = m.ts
-				mm.Payload = append([]byte{}, m.payload...)
-				err = prot[d].WriteMessage(mm)
-			}
-		})
-		switch {
-		case msg != "":
-			wcodes[d] = append(wcodes[d], vI(1000))
-			bad("no-panic", "writer panicked: "+msg)
-		case err != nil:
-			wcodes[d] = append(wcodes[d], vI(vC01ErrClass(err)))
-		default:
-			wcodes[d] = append(wcodes[d], vI(0))
-			written[d] = append(written[d], m)
-			if m.typ == 1 && len(m.payload) >= 4 {
-				if n := binary.BigEndian.Uint32(m.payload); n > 0 {
-					if int(n) != chunk[d] {
-						changed[d] = true
-					}
-					chunk[d] = int(n)
-				}
+			start[d] = 3073
+			if len(buf[d].data) < 3073 {
+				start[d] = len(buf[d].data)
 			}
 		}
-		if err != nil && vC01InDomain(m) {
-			bad("write-ok", fmt.Sprintf("in-domain message (cid %d type %d len %d) refused by the writer: %v", m.cid, m.typ, len(m.payload), err))
-		}
+	} else {
+		prot = [2]*Protocol{NewProtocol(conn[0]), NewProtocol(conn[1])}
+		writeSide(0)
+		writeSide(1)
 	}
 
 	var dirs [2]vSx
@@ -403,10 +439,31 @@ func vC01CtlBody(r *vRng, typ int) []byte {
 	return r.bytes(4)
 }
 
-func vC01Script(r *vRng) []vSx {
+// segmentation script of one direction; with a handshake in front, half of the scripts aim at the
+// handshake boundaries (offsets 1, 1537, 3073 of the direction's byte stream): a segment ends k bytes
+// before or after one of them (k = 0..5), so that the end of C2/S2 and the first chunk bytes share
+// a transport read, or a handshake part is split across reads
+func vC01Script(r *vRng, hs bool) []vSx {
+	if hs && r.chance(1, 2) {
+		k := r.intn(6)
+		if r.chance(1, 2) {
+			k = -k
+		}
+		tail := r.pickInt(1, 2, 7, 128, 4096, 70000, 70000)
+		switch r.intn(5) {
+		case 0:
+			return []vSx{vI(vC01Max1(1 + k)), vI(tail)}
+		case 1:
+			return []vSx{vI(1537 + k), vI(tail)}
+		case 2, 3:
+			return []vSx{vI(3073 + k), vI(tail)}
+		}
+		// every boundary moved by k
+		return []vSx{vI(vC01Max1(1 + k)), vI(1536), vI(1536), vI(tail), vI(70000), vI(70000), vI(70000)}
+	}
 	switch r.intn(5) {
 	case 0:
-		return nil // whole
+		return nil // whole: everything available in one read (handshake tail + chunks coalesced)
 	case 1:
 		return []vSx{vI(1)}
 	case 2:
@@ -420,9 +477,39 @@ func vC01Script(r *vRng) []vSx {
 	return s
 }
 
+func vC01Max1(n int) int {
+	if n < 1 {
+		return 1
+	}
+	return n
+}
+
+// full sessions with every cut position around every handshake boundary, both directions carrying
+// messages (a multi-chunk one first, a Set Chunk Size, an extended timestamp)
+func vC01SessionCases(emit func(vSx)) {
+	ops := vL(
+		vL(vI(0), vI(3), vU(0), vI(20), vU(0), vL(vI(300), vI(5))),
+		vL(vI(0), vI(2), vU(0), vI(1), vU(0), vB(vC01Be4(4096))),
+		vL(vI(0), vI(5), vU(0x1000000), vI(9), vU(1), vL(vI(5000), vI(9))),
+		vL(vI(1), vI(2), vU(0), vI(5), vU(0), vB(vC01Be4(2500000))),
+		vL(vI(1), vI(3), vU(0), vI(20), vU(0), vL(vI(129), vI(1))),
+		vL(vI(1), vI(64), vU(0xffffff), vI(8), vU(1), vL(vI(1), vI(2))))
+	scripts := [][]vSx{nil, {vI(1)}, {vI(3073), vI(1)}, {vI(4096)}}
+	for _, b := range []int{1, 1537, 3073} {
+		for k := -5; k <= 5; k++ {
+			if b+k >= 1 {
+				scripts = append(scripts, []vSx{vI(b + k), vI(70000)})
+			}
+		}
+	}
+	for _, sc := range scripts {
+		emit(vL(vI(1), vLs(sc), vLs(sc), ops))
+	}
+}
+
 func vC01Gen(r *vRng, thorough bool) vSx {
 	hs := 0
-	if r.chance(1, 4) {
+	if r.chance(1, 3) {
 		hs = 1
 	}
 	malformed := r.chance(1, 7)
@@ -522,7 +609,7 @@ func vC01Gen(r *vRng, thorough bool) vSx {
 		}
 		ops = append(ops, vL(vI(side), vI(cid), vU(ts), vI(typ), vU(sid), pay))
 	}
-	return vL(vI(hs), vLs(vC01Script(r)), vLs(vC01Script(r)), vLs(ops))
+	return vL(vI(hs), vLs(vC01Script(r, hs == 1)), vLs(vC01Script(r, hs == 1)), vLs(ops))
 }
 
 func TestVerifC01(t *testing.T) {
@@ -550,6 +637,7 @@ func TestVerifC01(t *testing.T) {
 	for _, c := range k.corpus() {
 		runOne(c)
 	}
+	vC01SessionCases(runOne)
 	if k.thorough() && k.nOverr == 0 {
 		// the 24-bit length limit: 2^24-1 bytes in 256 chunks of 65536 with an extended timestamp on a
 		// 3-byte-form chunk stream; a long script keeps this case out of the kernel-evaluated sample
